@@ -252,7 +252,7 @@ PROPS = {
     'C08': dict(corr=[DAG, RBC, RBW, PFORK, TKR]),
     'C09': dict(corr=[RUN, HB, HBF, K09B, E01]),
     'C10': dict(level='translation_validation', corr=[RES, DEP, TS, E10, E10S]),
-    'C11': dict(corr=[LN, K11D, E11, E11W]),
+    'C11': dict(corr=[LN, K11D, BC, E11, E11W, E20N]),
     'C12': dict(corr=[LN, LNC, ONES, DC, RUN, E14]),
     'C13': dict(corr=[RN, RNH, RNHR]),
     'C14': dict(corr=[RUN, E14]),
